@@ -53,10 +53,10 @@ func (f *vrFakeCC) NewSubConn(a []resolver.Address, o balancer.NewSubConnOptions
 	f.conns = append(f.conns, sc)
 	return sc, nil
 }
-func (f *vrFakeCC) RemoveSubConn(balancer.SubConn)                           {}
-func (f *vrFakeCC) UpdateAddresses(balancer.SubConn, []resolver.Address)     {}
-func (f *vrFakeCC) ResolveNow(resolver.ResolveNowOptions)                    {}
-func (f *vrFakeCC) Target() string                                           { return "verif-race" }
+func (f *vrFakeCC) RemoveSubConn(balancer.SubConn)                       {}
+func (f *vrFakeCC) UpdateAddresses(balancer.SubConn, []resolver.Address) {}
+func (f *vrFakeCC) ResolveNow(resolver.ResolveNowOptions)                {}
+func (f *vrFakeCC) Target() string                                       { return "verif-race" }
 func (f *vrFakeCC) UpdateState(s balancer.State) {
 	f.mu.Lock()
 	f.pubs = append(f.pubs, s)
